@@ -744,8 +744,18 @@ def main():
         if not case:
             print(json.dumps(d, indent=1))
             return 0
-        rc, iout, _ = run_lines([VH, "run"], case + "\n")
         rc, mout, _ = run_lines([DRIVER], case + "\n")
+        if case.startswith("req "):
+            # typed request: the model supplies the wire bytes, the real decoder reads them
+            parts = mout.strip().split(" | ")
+            head = parts[0].split(" ")
+            dec = "decode %s %s\n" % (head[1], head[2])
+            rc, iout, _ = run_lines([VH, "run"], dec)
+            print("wire:  ", head[2])
+            print("spec:  ", parts[1] if len(parts) > 1 else "")
+            mout = parts[2] if len(parts) > 2 else mout
+        else:
+            rc, iout, _ = run_lines([VH, "run"], case + "\n")
         print("case:  ", case)
         print("impl:  ", iout.strip())
         print("model: ", mout.strip())
